@@ -22,17 +22,18 @@
                     early exit or exhaustion — holds the answer Python list semantics gives on
                     `src` (this is C12's cache/history independence in its strongest form).
 
-  ASSUMPTION of every positive statement below: the underlying generator (`self._iter()`) never raises
-  anything but StopIteration.  It is explicit in the model: `Shared.raises` says after how many values
-  the generator raises which exception, line 138 has three outcomes (`Cache.step138`: next value /
-  StopIteration with `_len` published / an exception E that escapes through the `finally`), and the
-  invariant contains `raises = none` (`SInv.noraise`; `init` builds such a state).  With
-  `raises = some (k, E)` the property is FALSE for the code, and the model proves it (examples at
-  the end, `genraise_*`): after E escaped once, the cached object takes the dead generator's
-  StopIteration for the end of the recurrence without `_len` — the next listing raises TypeError at
-  `i < self._len`, and from then on the object is a complete sequence of what happened to be cached
-  with `count()` None, while the uncached object keeps raising E.  Known finding D-C11-genraise; the
-  oracle accepts it only where the implementation does exactly what the model predicts (`query.runx`).
+  HOW THE UNDERLYING GENERATOR ENDS is a parameter of the machine (`Shared.endErr`): after yielding `src` it either
+  raises StopIteration (publishing `_len`) or raises some other exception E.  Line 138 has the three outcomes
+  (`Cache.step138`: next value / StopIteration / E).  Since the repair of D-C11-genraise in /repo (`_restartable`:
+  a generator that died of E is replaced by a fresh one at the same position; an error met while reading ahead is
+  reported when the failing position itself is requested) every theorem below holds for BOTH endings — the former
+  hypothesis `SInv.noraise` is gone: `safety` (no exception of the caching code's own: no IndexError at `cache[i]`,
+  no TypeError at `i < self._len`), `no_deadlock`, `progress`, and `finished_answer` with the answer
+  `specE q src e` = list semantics when the generator ends normally, and for a raising generator exactly what the
+  UNCACHED object gives (`specE_eq_uncached`: all of `src` value by value, then E, unless the consumer stopped
+  before) — under any interleaving, and call after call on the same object (`genraise_history`, which replaces the
+  negation theorem `genraise_cached_differs` of the unrepaired code).  Granularity on the raising path: the
+  handler statements (they touch only locals and the lock) are one step with the raise.
 
   On the tree before fix a459cd4 (no `finally: release()`), the same model has a reachable
   deadlock; the harness keeps replaying that schedule on the implementation (c11.py sample).
@@ -46,36 +47,42 @@ import DateutilVerif.Proofs.CacheNestedProgress
 namespace C11
 open Cache Queries
 
-/-- states reachable from a fresh cached rule over `src` with one thread per query in `qs` -/
-inductive Reachable (src : List Int) (qs : List Query) : State → Prop
-  | init : Reachable src qs (init src qs)
-  | step {s s' : State} {t : Tid} : Reachable src qs s → step s t = some s' → Reachable src qs s'
+/-- states reachable from a fresh cached rule over `src` — its generator ending by StopIteration (`e = none`) or by
+    raising `e` — with one thread per query in `qs` -/
+inductive ReachableE (src : List Int) (e : Option Py.PyErr) (qs : List Query) : State → Prop
+  | init : ReachableE src e qs (init src qs e)
+  | step {s s' : State} {t : Tid} : ReachableE src e qs s → step s t = some s' → ReachableE src e qs s'
+
+/-- … over a generator that ends normally -/
+abbrev Reachable (src : List Int) (qs : List Query) : State → Prop := ReachableE src none qs
 
 /-- **inv_step.** -/
 theorem inv_step {s s' : State} {t : Tid} (hi : Inv s) (h : step s t = some s') : Inv s' :=
   inv_step' hi h
 
-theorem reachable_inv {src qs s} (h : Reachable src qs s) : Inv s ∧ s.sh.src = src := by
+theorem reachable_inv {src e qs s} (h : ReachableE src e qs s) : Inv s ∧ s.sh.src = src ∧ s.sh.endErr = e := by
   induction h with
-  | init => exact ⟨inv_init src qs, rfl⟩
-  | step _ hs ih => exact ⟨inv_step ih.1 hs, (measure_step ih.1 hs).2.trans ih.2⟩
+  | init => exact ⟨inv_init src qs e, rfl, rfl⟩
+  | step _ hs ih => exact ⟨inv_step ih.1 hs, (measure_step ih.1 hs).2.trans ih.2.1, (RSet.step_endErr ih.1 hs).trans ih.2.2⟩
 
 /-- any schedule (list of thread ids; disabled threads skip their turn) stays inside `Reachable` -/
-theorem reachable_run {src qs} (sched : List Tid) {s} (h : Reachable src qs s) :
-    Reachable src qs (run s sched) := by
+theorem reachable_run {src e qs} (sched : List Tid) {s} (h : ReachableE src e qs s) :
+    ReachableE src e qs (run s sched) := by
   induction sched generalizing s with
   | nil => exact h
   | cons t ts ih =>
     unfold run
     cases hs : step s t with
     | none => exact ih h
-    | some s' => exact ih (Reachable.step h hs)
+    | some s' => exact ih (ReachableE.step h hs)
 
 /-- **safety.** Every iterator's received values are a prefix of `src` (never longer, never
-    reordered), and no exception escaped — any number of iterators, any schedule. -/
-theorem safety {src qs s} (h : Reachable src qs s) (t : Tid) (it : Iter) (hit : s.its[t]? = some it) :
+    reordered), and the caching code raised nothing of its own (no IndexError at `cache[i]`, no TypeError at
+    `i < self._len`; the generator's own exception E, if it raises, is the consumer's RESULT: `finished_answer`)
+    — any number of iterators, any schedule, either ending of the generator. -/
+theorem safety {src e qs s} (h : ReachableE src e qs s) (t : Tid) (it : Iter) (hit : s.its[t]? = some it) :
     it.yielded <+: src ∧ it.crash = none := by
-  obtain ⟨hi, hsrc⟩ := reachable_inv h
+  obtain ⟨hi, hsrc, _⟩ := reachable_inv h
   obtain ⟨hc, hl⟩ := hi.linv t it hit
   refine ⟨?_, hc⟩
   rw [← hsrc]
@@ -87,9 +94,9 @@ theorem safety {src qs s} (h : Reachable src qs s) (t : Tid) (it : Iter) (hit : 
     | exact hl.1
 
 /-- **no_deadlock.** If some thread is unfinished, some thread is enabled. -/
-theorem no_deadlock {src qs s} (h : Reachable src qs s)
+theorem no_deadlock {src e qs s} (h : ReachableE src e qs s)
     (hun : ∃ (t : Tid) (it : Iter), s.its[t]? = some it ∧ it.pc ≠ .done) : ∃ t, (step s t).isSome := by
-  obtain ⟨hi, _⟩ := reachable_inv h
+  obtain ⟨hi, _, _⟩ := reachable_inv h
   have enabled : ∀ (t : Tid) (it : Iter), s.its[t]? = some it → it.pc ≠ .done → (it.pc = .l132 → s.sh.lock = none) →
       (step s t).isSome := by
     intro t it hit hnd hfree
@@ -114,14 +121,14 @@ theorem no_deadlock {src qs s} (h : Reachable src qs s)
     · intro h132; rw [h132] at hcrit; simp [PC.inCrit] at hcrit
 
 /-- **progress.** Every executed statement decreases the measure. -/
-theorem progress {src qs s s'} {t : Tid} (h : Reachable src qs s) (hs : step s t = some s') :
+theorem progress {src e qs s s'} {t : Tid} (h : ReachableE src e qs s) (hs : step s t = some s') :
     measure s' < measure s :=
   (measure_step (reachable_inv h).1 hs).1
 
 /-- hence every execution that only schedules enabled threads is finite: its length is bounded
     by the measure of the state it starts from -/
-theorem exec_bound {src qs} (l : List Tid) {s s'} (h : Reachable src qs s) (he : exec s l = some s') :
-    l.length + measure s' ≤ measure s ∧ Reachable src qs s' := by
+theorem exec_bound {src e qs} (l : List Tid) {s s'} (h : ReachableE src e qs s) (he : exec s l = some s') :
+    l.length + measure s' ≤ measure s ∧ ReachableE src e qs s' := by
   induction l generalizing s with
   | nil => simp only [exec, Option.some.injEq] at he; subst he; exact ⟨by simp, h⟩
   | cons t ts ih =>
@@ -130,31 +137,53 @@ theorem exec_bound {src qs} (l : List Tid) {s s'} (h : Reachable src qs s) (he :
     | none => rw [hs] at he; cases he
     | some s1 =>
       rw [hs] at he
-      have h1 := Reachable.step h hs
+      have h1 := ReachableE.step h hs
       have := ih h1 he
       have := progress h hs
       simp only [List.length_cons]
       exact ⟨by omega, (ih h1 he).2⟩
 
-/-- **finished_answer.** Whatever the schedule, a finished thread holds exactly the answer of
-    Python list semantics on `src` — fast path or generator path, early exit or exhaustion. -/
-theorem finished_answer {src qs s} (h : Reachable src qs s) (hsorted : Sorted src)
+/-- **finished_answer.** Whatever the schedule, a finished thread holds exactly what the uncached object gives:
+    the answer of Python list semantics on `src` when the generator ends normally, and for a generator that raises E
+    after `src` that answer if the query stops within `src`, E otherwise (`specE`; `specE_eq_uncached`) — fast
+    path or generator path, early exit or exhaustion. -/
+theorem finished_answer {src e qs s} (h : ReachableE src e qs s) (hsorted : Sorted src)
     (t : Tid) (it : Iter) (hit : s.its[t]? = some it) (hd : it.pc = .done) (hfits : fits it.q src) :
-    it.res = some (spec it.q src) ∧ (it.q = .iterAll → it.yielded = src) := by
-  obtain ⟨hi, hsrc⟩ := reachable_inv h
+    it.res = some (specE it.q src e) ∧ (it.q = .iterAll → it.yielded = src) := by
+  obtain ⟨hi, hsrc, herr⟩ := reachable_inv h
   obtain ⟨_, hl⟩ := hi.linv t it hit
   rw [hd] at hl
   simp only [] at hl
-  rw [hsrc] at hl
+  rw [hsrc, herr] at hl
   exact ⟨hl.2.2 hsorted hfits, hl.2.1⟩
+
+/-- `specE` for a raising generator IS the uncached object's behaviour: `genRaising` hands the consumer
+    `src` value by value (`for x in self._iter()`), the consumer drops the iterator as soon as its query is
+    decided (`stops` after any prefix), and E arrives after the last value -/
+theorem specE_eq_uncached (q : Query) (src : List Int) (e : Py.PyErr) (hsorted : Sorted src) (hfits : fits q src) :
+    specE q src (some e) = genRaising q src e := by
+  show (if stops q src then spec q src else Res.err e) = _
+  unfold genRaising
+  have hiff : ((List.range (src.length + 1)).any (fun n => stops q (src.take n))) = stops q src := by
+    cases hs : stops q src with
+    | true =>
+      rw [List.any_eq_true]
+      exact ⟨src.length, by simp, by rw [List.take_length]; exact hs⟩
+    | false =>
+      rw [List.any_eq_false]
+      intro n _ hn
+      have := stops_append q (src.take n) (src.drop n) hn
+      rw [List.take_append_drop, hs] at this
+      cases this
+  rw [hiff, gen_eq_spec q src hsorted hfits]
 
 /-- **all_complete.** A state where no thread can move — reached by every execution that keeps
     choosing enabled threads, after at most `measure (init src qs)` statements — has every thread
     finished; plain iterators have received exactly `src`, queries hold the specified answer. -/
-theorem all_complete {src qs s} (h : Reachable src qs s) (hstuck : ∀ t, step s t = none)
+theorem all_complete {src e qs s} (h : ReachableE src e qs s) (hstuck : ∀ t, step s t = none)
     (t : Tid) (it : Iter) (hit : s.its[t]? = some it) :
     it.pc = .done ∧ (it.q = .iterAll → it.yielded = src) ∧
-    (Sorted src → fits it.q src → it.res = some (spec it.q src)) := by
+    (Sorted src → fits it.q src → it.res = some (specE it.q src e)) := by
   have hall : ∀ (t : Tid) (it : Iter), s.its[t]? = some it → it.pc = .done := by
     intro t it hit
     by_cases hd : it.pc = .done
@@ -164,9 +193,9 @@ theorem all_complete {src qs s} (h : Reachable src qs s) (hstuck : ∀ t, step s
   have hd := hall t it hit
   exact ⟨hd, fun hq => (finished_answer_aux h t it hit hd).1 hq, fun hs hq => (finished_answer h hs t it hit hd hq).1⟩
 where
-  finished_answer_aux {src qs s} (h : Reachable src qs s) (t : Tid) (it : Iter) (hit : s.its[t]? = some it)
+  finished_answer_aux {src e qs s} (h : ReachableE src e qs s) (t : Tid) (it : Iter) (hit : s.its[t]? = some it)
       (hd : it.pc = .done) : (it.q = .iterAll → it.yielded = src) ∧ True := by
-    obtain ⟨hi, hsrc⟩ := reachable_inv h
+    obtain ⟨hi, hsrc, _⟩ := reachable_inv h
     obtain ⟨_, hl⟩ := hi.linv t it hit
     rw [hd] at hl
     simp only [] at hl
@@ -232,9 +261,9 @@ theorem nested_all_complete_partial {ns0 ns : Nested.NState} (h0 : Nested.Fresh 
     (hstuck : ∀ r, Nested.IsRunner ns r → Nested.step ns r = none) :
     (∀ r, Nested.IsRunner ns r → Nested.finished ns r = true) ∧
     (∀ (si : Nat) (S : Nested.SetM) (t : Tid) (it : Iter), ns.sets[si]? = some S → S.st.its[t]? = some it → it.pc = .done →
-        Sorted S.st.sh.src → fits it.q S.st.sh.src → it.res = some (spec it.q S.st.sh.src)) ∧
+        Sorted S.st.sh.src → fits it.q S.st.sh.src → it.res = some (specE it.q S.st.sh.src S.st.sh.endErr)) ∧
     (∀ (m : Nat) (M : Cache.State) (t : Tid) (it : Iter), ns.members[m]? = some M → M.its[t]? = some it → it.pc = .done →
-        Sorted M.sh.src → fits it.q M.sh.src → it.res = some (spec it.q M.sh.src)) := by
+        Sorted M.sh.src → fits it.q M.sh.src → it.res = some (specE it.q M.sh.src M.sh.endErr)) := by
   have hi := Nested.nreach_inv h0 h
   refine ⟨?_, ?_, ?_⟩
   · intro r hr
@@ -302,23 +331,38 @@ example : (let ns := Nested.run nestedOwn.1 nestedOwn.2 (List.replicate 150 0)
            (Nested.finished ns (1, 0), ns.sets.map (fun S => S.st.sh.cache), Nested.deadlocked ns nestedOwn.2))
           = (true, [[0, 10, 20]], false) := by decide +kernel
 
-/-! ### the underlying generator raises: cached ≠ uncached (D-C11-genraise), proved on the model -/
+/-! ### the underlying generator raises: cached = uncached (D-C11-genraise repaired in /repo) -/
 
--- the witness shape (the generator raises before its first value): list, list, list, count(), in
-example : runRaising [] 0 .TypeError (initRaising [] 0 .TypeError) [.iterAll, .iterAll, .iterAll, .count, .contains 5]
-          = [.err .TypeError, .err .TypeError, .list [], .val none, .bool false] := by decide +kernel
-example : [Query.iterAll, .iterAll, .iterAll, .count, .contains 5].map (fun q => genRaising q [] 0 .TypeError)
-          = [.err .TypeError, .err .TypeError, .err .TypeError, .err .TypeError, .err .TypeError] := by decide
+/-- **genraise_history** (replaces the negation theorem `genraise_cached_differs` of the unrepaired code).
+    ANY history of query methods / listings, each run to its end, on ONE cached object whose generator yields `src`
+    and then raises E gives, call by call, what the uncached object gives (`genRaising`: E in every call that needs
+    one value more than `src`, the list-semantics answer in every call decided within `src`) — every `src`, every E,
+    every sequence of calls. -/
+theorem genraise_history (src : List Int) (e : Py.PyErr) (qs : List Query) (hsorted : Sorted src)
+    (hfits : ∀ q ∈ qs, fits q src) :
+    RSet.runQueries (init src [] (some e)) qs = qs.map (fun q => some (genRaising q src e)) := by
+  have h := RSet.runQueries_specE qs (init src [] (some e)) (inv_init src [] (some e))
+    (fun t it hit => by simp [init] at hit) hsorted hfits
+  rw [h]
+  apply List.map_congr_left
+  intro q hq
+  show some (specE q src (some e)) = _
+  rw [specE_eq_uncached q src e hsorted (hfits q hq)]
 
-/-- **genraise_cached_differs.** For a generator that raises E after 11 of 12 values: an index query is answered from
-    the first batch; the listing raises E; the NEXT listing raises TypeError (`i < self._len` with `_len` None) although
-    the uncached rule raises E again; then the object pretends to be the 11 cached values with `count()` None. -/
-theorem genraise_cached_differs :
-    runRaising [0, 1, 2, 3, 4, 5, 6, 7, 8, 9, 10, 11] 11 .ZeroDivisionError
-        (initRaising [0, 1, 2, 3, 4, 5, 6, 7, 8, 9, 10, 11] 11 .ZeroDivisionError) [.index 3, .iterAll, .iterAll, .count, .iterAll]
-      = [.val (some 3), .err .ZeroDivisionError, .err .TypeError, .val none, .list [0, 1, 2, 3, 4, 5, 6, 7, 8, 9, 10]] ∧
-    [Query.index 3, .iterAll, .iterAll, .count, .iterAll].map (fun q => genRaising q [0, 1, 2, 3, 4, 5, 6, 7, 8, 9, 10, 11] 11 .ZeroDivisionError)
-      = [.val (some 3), .err .ZeroDivisionError, .err .ZeroDivisionError, .err .ZeroDivisionError, .err .ZeroDivisionError] := by
+-- the former witness shapes now agree with the uncached object.  The generator raises before its first value:
+example : RSet.runQueries (init [] [] (some .TypeError)) [.iterAll, .iterAll, .iterAll, .count, .contains 5]
+          = [some (.err .TypeError), some (.err .TypeError), some (.err .TypeError), some (.err .TypeError), some (.err .TypeError)] := by
   decide +kernel
+-- after 11 values: an index query is answered from the first fill (the error met while reading ahead is deferred), a
+-- listing raises E, and so does every later listing and `count()`; an early-exit query is still answered
+example : RSet.runQueries (init [0, 1, 2, 3, 4, 5, 6, 7, 8, 9, 10] [] (some .ZeroDivisionError))
+            [.index 3, .iterAll, .iterAll, .count, .index 10, .index 11, .after 4 false]
+          = [some (.val (some 3)), some (.err .ZeroDivisionError), some (.err .ZeroDivisionError), some (.err .ZeroDivisionError),
+             some (.val (some 10)), some (.err .ZeroDivisionError), some (.val (some 5))] := by decide +kernel
+-- under an interleaving: two listings and an index query over a generator that raises after 3 values
+example : ((run (init [0, 5, 7] [.iterAll, .iterAll, .index 1] (some .ZeroDivisionError))
+            ((List.replicate 40 [0, 1, 2, 1, 1, 0]).flatten)).its.map (fun it => (it.pc, it.yielded, it.res, it.crash)))
+          = [(.done, [0, 5, 7], some (.err .ZeroDivisionError), none), (.done, [0, 5, 7], some (.err .ZeroDivisionError), none),
+             (.done, [0, 5], some (.val (some 5)), none)] := by decide +kernel
 
 end C11
